@@ -7,6 +7,7 @@ import (
 	"fmt"
 	"os"
 	"path/filepath"
+	"regexp"
 	"sort"
 	"strconv"
 	"strings"
@@ -83,6 +84,11 @@ type violation struct {
 	Property   string `json:"property"`
 }
 
+var instSuffix = regexp.MustCompile(`#\d+$`)
+
+// group: the obligation name without its "#k" instance suffix (the ledger is keyed by group).
+func (ob *Obligation) group() string { return instSuffix.ReplaceAllString(ob.Name, "") }
+
 func obOK(ob *Obligation) bool {
 	if ob.Smoke {
 		return ob.Result != "unsat"
@@ -108,19 +114,35 @@ func finishCheck(o checkOpts, results []*funcResult, e *Engine, problems []strin
 		specErrs = append(specErrs, r.ctx.anchorErrs...)
 		for _, ob := range r.ctx.obligations {
 			generated[ob.Name] = ob
+			generated[ob.group()] = ob
 			all = append(all, ob)
 		}
 	}
 	if update {
 		ne := &ledgerEntry{Unclaimed: map[string]string{}}
+		// the ledger holds obligation groups (name without the "#k" instance suffix): a group is claimed when
+		// every instance discharges, so that the number of instances (back edges, repeated sites) may change
+		groupBad := map[string]string{}
+		var groups []string
+		seen := map[string]bool{}
 		for _, ob := range all {
-			if ob.kfUnrestricted {
+			if ob.kfUnrestricted || ob.Auto {
 				continue
 			}
-			if obOK(ob) {
-				ne.Claimed = append(ne.Claimed, ob.Name)
+			g := ob.group()
+			if !seen[g] {
+				seen[g] = true
+				groups = append(groups, g)
+			}
+			if !obOK(ob) {
+				groupBad[g] = ob.Result
+			}
+		}
+		for _, g := range groups {
+			if why, bad := groupBad[g]; bad {
+				ne.Unclaimed[g] = "not discharged on the reference tree: " + why
 			} else {
-				ne.Unclaimed[ob.Name] = "not discharged on the reference tree: " + ob.Result
+				ne.Claimed = append(ne.Claimed, g)
 			}
 		}
 		sort.Strings(ne.Claimed)
@@ -165,7 +187,19 @@ func finishCheck(o checkOpts, results []*funcResult, e *Engine, problems []strin
 			continue
 		}
 		ok := obOK(ob)
-		if claimed[ob.Name] {
+		if ob.Auto {
+			// helper obligations of uncontracted loops (range-index bounds, frame): later proofs assume them, so
+			// they are always checked; they are not named in the ledger because their names follow the loop text
+			nClaimed++
+			if ok {
+				nDischarged++
+				bySolver[ob.Solver]++
+			} else {
+				viols = append(viols, &violation{Obligation: ob.Name, Reason: "helper loop obligation fails: " + ob.Result, Pos: ob.Pos, Solver: ob.Solver, Status: ob.Result, Output: trunc(ob.Output, 4000), SmtFile: ob.SmtFile, Function: ob.Fn, Property: o.prop})
+			}
+			continue
+		}
+		if claimed[ob.group()] {
 			nClaimed++
 			if ok {
 				nDischarged++
@@ -202,10 +236,10 @@ func finishCheck(o checkOpts, results []*funcResult, e *Engine, problems []strin
 
 	// new failing obligations: violation only when the counterexample replays on the real code
 	for _, ob := range all {
-		if claimed[ob.Name] || ob.kfUnrestricted || obOK(ob) || ob.Smoke {
+		if claimed[ob.group()] || ob.kfUnrestricted || obOK(ob) || ob.Smoke || ob.Auto {
 			continue
 		}
-		if _, un := ent.Unclaimed[ob.Name]; un {
+		if _, un := ent.Unclaimed[ob.group()]; un {
 			continue
 		}
 		if ob.Result != "sat" {
